@@ -53,7 +53,8 @@ impl Code {
 			// TODO: interests.stack_map_table
 			//  also the question: should CodeInterests have a field for "instructions"?
 			for instruction in self.instructions {
-				code_visitor.visit_instruction(instruction.label, instruction.frame, instruction.instruction)?;
+				let frame = if interests.stack_map_table { instruction.frame } else { None };
+				code_visitor.visit_instruction(instruction.label, frame, instruction.instruction)?;
 			}
 			code_visitor.visit_exception_table(self.exception_table)?;
 			if let Some(last_label) = self.last_label {
